@@ -65,6 +65,78 @@ type Case struct {
 	// stream - legal CARv1 that the library's own writer never produces (a concatenation of exports, a relay that
 	// re-sends a block). The buffered reader's result on these bytes is the reference, as for every other stream.
 	Dup int `json:"dup,omitempty"`
+	// Pos > 0 (op chunk): the source is a standard in-memory, section or file reader (posKinds[Pos-1]) over a
+	// LARGER byte string, positioned at the start of the artefact: the caller has consumed a record header, or the
+	// artefact sits at an offset of a file. The stream is what remains to be read; Pre selects the bytes before it.
+	Pos int `json:"pos,omitempty"`
+	Pre int `json:"pre,omitempty"`
+}
+
+var posKinds = []string{"bytes.Reader", "strings.Reader", "bytes.Buffer", "io.SectionReader", "read-seeker", "os.File", "bufio.Reader", "section-of-section"}
+
+// readSeeker: an io.ReadSeeker with no other method (no Len, no ReadAt, no WriteTo)
+type readSeeker struct{ r *bytes.Reader }
+
+func (r readSeeker) Read(p []byte) (int, error)                { return r.r.Read(p) }
+func (r readSeeker) Seek(o int64, whence int) (int64, error) { return r.r.Seek(o, whence) }
+
+func preamble(pre int, art []byte) []byte {
+	switch pre % 6 {
+	case 0:
+		return []byte{0x89, 'U', 'C', 'N'}
+	case 1:
+		return append([]byte{}, art...) // a whole copy of the artefact: what a rewound reader would find is valid
+	case 2:
+		return art[:len(art)/2]
+	case 3:
+		return bytes.Repeat([]byte{0}, 1+pre%700)
+	case 4:
+		return []byte("record 17\n")
+	default:
+		return bytes.Repeat([]byte{0xff, 0x0a, 0xa2}, 1+pre%300)
+	}
+}
+
+// positioned builds the source; cleanup removes what it created.
+func positioned(kind int, pre, art []byte) (io.Reader, func()) {
+	whole := append(append([]byte{}, pre...), art...)
+	n := int64(len(pre))
+	switch posKinds[kind%len(posKinds)] {
+	case "bytes.Reader":
+		r := bytes.NewReader(whole)
+		r.Seek(n, io.SeekStart)
+		return r, func() {}
+	case "strings.Reader":
+		r := strings.NewReader(string(whole))
+		r.Seek(n, io.SeekStart)
+		return r, func() {}
+	case "bytes.Buffer":
+		b := bytes.NewBuffer(whole)
+		b.Next(len(pre))
+		return b, func() {}
+	case "io.SectionReader":
+		r := io.NewSectionReader(bytes.NewReader(whole), 0, int64(len(whole)))
+		r.Seek(n, io.SeekStart)
+		return r, func() {}
+	case "read-seeker":
+		r := readSeeker{bytes.NewReader(whole)}
+		r.Seek(n, io.SeekStart)
+		return r, func() {}
+	case "os.File":
+		f, err := os.CreateTemp("", "verif-c18-*")
+		if err != nil {
+			return bytes.NewReader(art), func() {}
+		}
+		f.Write(whole)
+		f.Seek(n, io.SeekStart)
+		return f, func() { f.Close(); os.Remove(f.Name()) }
+	case "bufio.Reader":
+		r := bufio.NewReaderSize(bytes.NewReader(whole), 16)
+		r.Discard(len(pre))
+		return r, func() {}
+	default: // a section that starts at the artefact, of a reader that does not
+		return io.NewSectionReader(bytes.NewReader(whole), n, int64(len(art))), func() {}
+	}
 }
 
 type timeoutErr struct{}
@@ -566,6 +638,24 @@ func run(c *h.Ctx, cs Case) {
 	}
 	switch cs.Op {
 	case "chunk":
+		if cs.Pos > 0 {
+			pre := preamble(cs.Pre, art)
+			src, done := positioned(cs.Pos-1, pre, art)
+			var got outcome
+			pn, pv, _ := h.Try(func() { got = readStream(cs, b.kind, src) })
+			done()
+			kind := posKinds[(cs.Pos-1)%len(posKinds)]
+			if pn {
+				c.Fail("C18/read/panic/"+api, "stream reader panicked on a positioned %s: %v", kind, pv)
+				return
+			}
+			if !same(got, base) {
+				c.Fail("C18/read/positioned-source-changes-result/"+kind+"/"+api, "the artefact read from a %s positioned at its first byte (%d bytes precede it in the underlying data) gives %s, buffered decoding of the same bytes gives %s", kind, len(pre), got, base)
+			}
+			c.P.Class("positioned:" + kind)
+			c.P.NonTrivial([]any{"positioned", api, kind, cs.Pre % 6, len(cs.Toks)}, map[string]any{"op": "positioned-source", "artefact": api, "len": len(art), "source": kind, "preamble_len": len(pre)})
+			return
+		}
 		r := &faultReader{data: art, limit: -1, chunk: cs.Chunk, dataWithEOF: cs.DataWithEOF, zeroReads: cs.ZeroReads}
 		var got outcome
 		if pn, pv, _ := h.Try(func() { got = readStream(cs, b.kind, wrapSrc(cs.Src, r)) }); pn {
@@ -850,6 +940,10 @@ func draw(t *rapid.T) Case {
 	}
 	switch cs.Op {
 	case "chunk":
+		if rapid.IntRange(0, 2).Draw(t, "positioned") == 0 {
+			cs.Pos = rapid.IntRange(1, len(posKinds)).Draw(t, "pos")
+			cs.Pre = rapid.IntRange(0, 2000).Draw(t, "pre")
+		}
 		cs.DataWithEOF = rapid.Bool().Draw(t, "dweof")
 		cs.ZeroReads = false // (0, nil) reads are outside the property's chunkings; see DESIGN.md, C18 false alarm
 	case "readfault":
